@@ -31,6 +31,7 @@ import (
 	"os"
 	"os/exec"
 	"path/filepath"
+	"regexp"
 	"sort"
 	"strings"
 )
@@ -357,14 +358,88 @@ func main() {
 						if lp, ok := selLabelPos[x]; ok {
 							at = lp
 						}
-						lbl := fmt.Sprintf("__simsel%d", nextSelect)
+						n := nextSelect
 						nextSelect++
-						add(offset(at), offset(at), lbl+": ")
-						for _, c := range x.Body.List {
+						lbl := fmt.Sprintf("__simsel%d", n)
+						// The polling form re-enters the select; Go evaluates channel
+						// operands and send values exactly once, in source order, so
+						// they are hoisted into temporaries first (a time.After in a
+						// case must not create a fresh timer per poll).
+						// the hoisted text loses the edits nested in it: the clock seam is
+						// re-applied textually, operands with function literals or nested
+						// receives stay where they are (evaluated again at every poll)
+						alias := "time"
+						for _, im := range f.Imports {
+							if im.Path.Value == `"time"` && im.Name != nil {
+								alias = im.Name.Name
+							}
+						}
+						clockRe := regexp.MustCompile(`\b` + regexp.QuoteMeta(alias) + `\.(Now|Since|Until|Sleep|After)\b`)
+						src := func(e ast.Expr) string {
+							t := string(srcs[full][offset(e.Pos()):offset(e.End())])
+							if clockRe.MatchString(t) {
+								t = clockRe.ReplaceAllString(t, "__simrt.$1")
+								clockUsed = true
+								timeName = alias
+							}
+							return t
+						}
+						hoist := ""
+						hoistable := func(e ast.Expr) bool {
+							tv, ok := info.Types[e]
+							if !ok || tv.Value != nil || tv.IsNil() || tv.Type == nil {
+								return false
+							}
+							plain := true
+							ast.Inspect(e, func(n ast.Node) bool {
+								switch u := n.(type) {
+								case *ast.FuncLit:
+									plain = false
+								case *ast.UnaryExpr:
+									if u.Op == token.ARROW {
+										plain = false
+									}
+								}
+								return plain
+							})
+							return plain
+						}
+						for ci, c := range x.Body.List {
 							cc := c.(*ast.CommClause)
+							var recv *ast.UnaryExpr
+							switch cm := cc.Comm.(type) {
+							case *ast.SendStmt:
+								if hoistable(cm.Chan) {
+									name := fmt.Sprintf("__simc%d_%d", n, ci)
+									hoist += name + " := " + src(cm.Chan) + "; "
+									add(offset(cm.Chan.Pos()), offset(cm.Chan.End()), name)
+								}
+								if tv := info.Types[cm.Value]; hoistable(cm.Value) {
+									if b, isBasic := tv.Type.(*types.Basic); !isBasic || b.Info()&types.IsUntyped == 0 {
+										name := fmt.Sprintf("__simv%d_%d", n, ci)
+										hoist += name + " := " + src(cm.Value) + "; "
+										add(offset(cm.Value.Pos()), offset(cm.Value.End()), name)
+									}
+								}
+							case *ast.ExprStmt:
+								recv, _ = ast.Unparen(cm.X).(*ast.UnaryExpr)
+							case *ast.AssignStmt:
+								if len(cm.Rhs) == 1 {
+									recv, _ = ast.Unparen(cm.Rhs[0]).(*ast.UnaryExpr)
+								}
+							}
+							if recv != nil && recv.Op == token.ARROW && hoistable(recv.X) {
+								name := fmt.Sprintf("__simc%d_%d", n, ci)
+								hoist += name + " := " + src(recv.X) + "; "
+								add(offset(recv.X.Pos()), offset(recv.X.End()), name)
+							}
 							add(offset(cc.Colon)+1, offset(cc.Colon)+1, " __simrt.SelectDone(); ")
 						}
-						add(offset(x.Body.Rbrace), offset(x.Body.Rbrace), "; default: __simrt.SelectPark(); goto "+lbl+"\n")
+						add(offset(at), offset(at), hoist+lbl+": ")
+						// callers that are not scheduled tasks (goroutines of the library's
+						// own, or no simulation running) get a nil channel here: for them the
+						// statement stays the blocking select it was
+						add(offset(x.Body.Rbrace), offset(x.Body.Rbrace), "; case <-__simrt.SelectWake(): __simrt.SelectPark(); goto "+lbl+"\n")
 						sf.SelectShims++
 					}
 				case *ast.BlockStmt:
